@@ -599,3 +599,39 @@ where
 
 // ---------------------------------------------------------------- C01.P4
 pub fn ctl_unsafe(p: *const u8) -> u8 { unsafe { *p } }
+
+// ---------------------------------------------------------------- C02
+pub struct DropHandleObserver<O, SD> { observer: MutRc<Option<O>>, scheduler: SD }
+impl<Item, Err, O, SD> Observer<Item, Err> for DropHandleObserver<O, SD>
+where
+  O: Observer<Item, Err>,
+  SD: Scheduler<crate::scheduler::OnceTask<(MutRc<Option<O>>, Item), NormalReturn<()>>>,
+{
+  fn next(&mut self, value: Item) {
+    let task = crate::scheduler::OnceTask::new(ctl_emit, (self.observer.clone(), value));
+    let _handle = self.scheduler.schedule(task, None);
+  }
+  fn error(self, err: Err) { self.observer.error(err) }
+  fn complete(self) { self.observer.complete() }
+  fn is_finished(&self) -> bool { self.observer.is_finished() }
+}
+/// keeps the handle in a plain field that no returned subscription can reach
+pub struct FieldHandleObserver<O, SD> { observer: MutRc<Option<O>>, scheduler: SD, handle: Option<TaskHandle<NormalReturn<()>>> }
+impl<Item, Err, O, SD> Observer<Item, Err> for FieldHandleObserver<O, SD>
+where
+  O: Observer<Item, Err>,
+  SD: Scheduler<crate::scheduler::OnceTask<(MutRc<Option<O>>, Item), NormalReturn<()>>>,
+{
+  fn next(&mut self, value: Item) {
+    let task = crate::scheduler::OnceTask::new(ctl_emit, (self.observer.clone(), value));
+    self.handle = Some(self.scheduler.schedule(task, None));
+  }
+  fn error(self, err: Err) { self.observer.error(err) }
+  fn complete(self) { self.observer.complete() }
+  fn is_finished(&self) -> bool { self.observer.is_finished() }
+}
+pub struct OneSidedUnsub<A, B> { a: A, b: B }
+impl<A: Subscription, B: Subscription> Subscription for OneSidedUnsub<A, B> {
+  fn unsubscribe(self) { self.a.unsubscribe(); }
+  fn is_closed(&self) -> bool { self.a.is_closed() && self.b.is_closed() }
+}
